@@ -15,6 +15,8 @@ package basichost
 //                               directions.
 //  TestVerifC02StreamHalfClose  CloseWrite on one or both ends, at every point of a small scenario set,
 //                               followed by further reads (and writes from the still-open end).
+//  TestVerifC02StreamListenerFirst the listener speaks first: the dialer's first operation on a fresh stream is a
+//                               Read (which has to run the lazy handshake), the answer flows dialer->listener.
 //  TestVerifC02StreamConcurrent 3 bidirectional streams with concurrently running writers and readers (the Go
 //                               scheduler picks the interleaving inside the bubble; the oracle does not
 //                               depend on it).
@@ -670,6 +672,88 @@ func TestVerifC02StreamConcurrent(t *testing.T) {
 						b.Transfers += 6
 						r.Outcome("3 concurrent bidirectional streams delivered intact")
 						b.Distinct(c, stack, neg, short, pol.Name)
+					}
+				}
+			}
+		}
+	}
+}
+
+// ---------- the listener speaks first ----------
+
+func TestVerifC02StreamListenerFirst(t *testing.T) {
+	r := vrep.New("C02", "stream-listener-first")
+	defer r.Flush()
+	sec, err := c02NewSec()
+	if err != nil {
+		r.Cap("infrastructure: %v", err)
+		return
+	}
+	b := memconn.NewBook(r)
+	defer b.Finish()
+	thorough := vrep.Thorough()
+	lengths := []int{1, 4068, 70000, 300000}
+	shorts := [][]int{{0}, {7}}
+	if thorough {
+		lengths = append(lengths, 2, 4096, 65536, 262145)
+		shorts = append(shorts, []int{1})
+	}
+	r.Bounds["shape"] = "fresh stream; the dialer's first call is Read (in the harness goroutine) while the listener - as soon as the stream was dispatched to its handler - writes L bytes; then the dialer answers with L bytes"
+	r.Bounds["L"] = lengths
+	r.Bounds["short_read_patterns"] = shorts
+	r.Bounds["read_sizes"] = "1 (L <= 70000), 4096, L+1"
+	for _, stack := range c02Stacks {
+		for _, neg := range c02Negs {
+			for _, L := range lengths {
+				for _, short := range shorts {
+					for _, pol := range memconn.Policies([]int{1, 4096, L + 1}, nil) {
+						if pol.D == 1 && L > 70000 {
+							continue
+						}
+						if !b.Mine(stack, neg, L, short, pol.Name) {
+							continue
+						}
+						if b.Over() {
+							return
+						}
+						c := c02Case{Scenario: "listener-first", Stack: stack, Neg: neg, Short: short, L: L, Policy: pol.Name}
+						var prob *memconn.Problem
+						var infra error
+						pan := memconn.Bubble(t, func() {
+							m, err := c02NewMux(sec, stack, short)
+							if err != nil {
+								infra = err
+								return
+							}
+							defer m.close()
+							p, err := m.open(0, neg)
+							if err != nil {
+								infra = err
+								return
+							}
+							c.Step = "listener->dialer, dialer reads first"
+							third := L / 3
+							down := &memconn.Concurrent{W: c02End{p, true}, R: c02End{p, false}, Payload: memconn.Pattern(0xF1257, L), Writes: []int{third, third, L - 2*third},
+								ReadSize: func(int) int { return pol.D }, Arm: c02End{p, false}.arm, Buf: b.Buf}
+							if prob = down.Run(); prob != nil {
+								return
+							}
+							b.Buf = down.Buf
+							c.Step = "answer dialer->listener"
+							if L <= 200000 {
+								tr := p.transfer(true, memconn.Pattern(0xF1258, L), []int{L}, false, pol, b.Buf)
+								prob = tr.Run()
+							} else {
+								up := &memconn.Concurrent{W: c02End{p, false}, R: c02End{p, true}, Payload: memconn.Pattern(0xF1258, L), Writes: []int{L},
+									ReadSize: func(int) int { return pol.D }, Arm: c02End{p, true}.arm, Buf: b.Buf}
+								prob = up.Run()
+							}
+						})
+						if c02File(b, pan, infra, prob, c) {
+							b.Transfers += 2
+							r.Outcome(stack + " " + neg + " listener-first exchange delivered intact")
+							b.Distinct(c, stack, neg, L, short, pol.Name)
+						}
 					}
 				}
 			}
